@@ -27,7 +27,13 @@ Inductive outcome :=
 | OWrong                             (* creator returns an object of a different type *)
 | OMade (truthy eqnone : bool).      (* an instance with these bits *)
 
-Inductive event := Call (k c : nat) | Close (k : nat).
+(* how a connection ends; whatever the way, SocketConnection.close() runs on the server side *)
+Inductive ending :=
+| EOrderly       (* the client closes its socket; shutdown() of the server-side socket succeeds *)
+| EReset         (* abortive end (TCP reset): shutdown() of the server-side socket raises ENOTCONN *)
+| EStale         (* the server-side socket is already closed when close() runs: shutdown() raises *)
+| EError.        (* the server closes the connection after a request it could not process *)
+Inductive event := Call (k c : nat) | Close (k : nat) (how : ending).
 Inductive obs :=
 | Served (a : inst)                  (* the call was served by this instance *)
 | Failed (wrongtype : bool)          (* instance creation failed; error reply *)
@@ -103,7 +109,7 @@ Definition get_instance (sh : shape) (w : world) (modes : nat -> imode) (k c : n
 Definition step_ev (sh : shape) (w : world) (modes : nat -> imode) (e : event) (s : st) : st * obs :=
   match e with
   | Call k c => get_instance sh w modes k c s
-  | Close k => (if close_clears sh then mk_st (singles s) (clear2 (sessions s) k) (log s) else s, Closed)
+  | Close k _ => (if close_clears sh then mk_st (singles s) (clear2 (sessions s) k) (log s) else s, Closed)
   end.
 
 Definition trace := list (event * obs).
